@@ -494,9 +494,14 @@ def solve(M, b):
     n = M.shape[0]
     if b.ndim != 1 or M.shape != (n, n) or b.shape[0] != n:
         raise UnsupportedOp('linalg.solve shapes')
+    # function consistency: the same system (identical terms) solved again returns the same vector
+    key = ('linsolve', tuple(L(v).id for v in M.flat), tuple(L(v).id for v in b.flat))
+    if key in c.memo:
+        return c.memo[key].copy().view(SymArray)
     x = _np.empty(n, dtype=object)
     for i in range(n):
         x[i] = P(c.fresh('lin'))
+    c.memo[key] = x
     for i in range(n):
         row = tm.ZERO
         for j in range(n):
